@@ -835,3 +835,41 @@ def op_c10(case):
     r = {"tok": op_c09({"src": src})}
     r["tree"] = op_c01({"src": src, "mode": case.get("mode", "eval")})
     return r
+
+
+# ---------------------------------------------------------------------------------------------
+# C11: error records through both entry points
+# ---------------------------------------------------------------------------------------------
+def _err_trace(exc: dict, src: str) -> dict:
+    lines = src.split("\n")
+    if lines and lines[-1] == "":
+        lines = lines[:-1]
+    ll = [len(x.rstrip("\r")) for x in lines]
+
+    def num(v):
+        return v if isinstance(v, int) and not isinstance(v, bool) else -1
+
+    ln = num(exc.get("lineno"))
+    line = lines[ln - 1].rstrip("\r") if 1 <= ln <= len(lines) else ""
+    text = exc.get("text")
+    textok = isinstance(text, str) and text.startswith(line) and (1 <= ln <= len(lines) + 1)
+    fn = exc.get("filename")
+    return {"cls": exc["cls"], "nargs": exc.get("nargs", 0), "msg": exc.get("msg") or "", "fname": fn if isinstance(fn, str) else ("" if fn is None else "?"),
+            "ln": ln, "off": num(exc.get("offset")), "eln": num(exc.get("end_lineno")), "eoff": num(exc.get("end_offset")),
+            "textok": bool(textok), "ll": ll, "line": line[:80], "text": (text if isinstance(text, str) else repr(text))[:120]}
+
+
+def op_c11(case):
+    src = case["src"]
+    out = []
+    for entry in case.get("entries", ("string", "file")):
+        pv = case.get("py_version")
+        o = obs_parse(src, "exec", py_version=pv, want=()) if entry == "string" else obs_parse_file(src, py_version=pv, want=())
+        e = o.get("exc")
+        if e and "SyntaxError" in e["mro"]:
+            t = _err_trace(e, src)
+            t["entry"] = entry
+            out.append(t)
+        elif o.get("hang"):
+            out.append({"entry": entry, "hang": True})
+    return {"errors": out}
